@@ -119,7 +119,7 @@ class FakePollObject(object):
         return out
 
 
-CMD = {0: '/sim/ok', 1: '/sim/missing', 2: '/sim/noexec'}
+CMD = {0: '/sim/ok', 1: '/sim/missing', 2: '/sim/noexec', 3: '/sim/noperm', 4: '/sim/dir'}
 
 
 class Driver(object):
